@@ -44,6 +44,7 @@ COMPONENTS = {
         "bits.p2p.parse_payload and parse_version/ping/getheaders/inv/addr_payload",
     ],
     "stub": [
+        "thread scheduler for the concurrent stratum (2-3 simulated receiver threads on separate connections); socket-object identity (optionally recycled for the connection after a dead one)",
         "socket (SimSocket: recv returns 1..min(n, arrived) bytes, b'' after peer close)",
         "network (seeded cuts independent of frame boundaries, seeded delivery times, single bit flip, truncation + close, foreign magic)",
         "peer (scripted byte stream)",
